@@ -19,6 +19,7 @@ import (
 	"time"
 
 	"github.com/piotrnar/gocoin/lib/btc"
+	"github.com/piotrnar/gocoin/lib/chain"
 
 	"verif/internal/chainx"
 	"verif/internal/ev"
@@ -397,6 +398,20 @@ func variants() []variant {
 	add(variant{name: "sigops-p2sh-p2wsh-80004", rule: "sigop cost", build: func(c *ctx) *reftx.Block {
 		return heavyBlk(c, 75, (80000-heavyOps)/4+1, "PSW0")
 	}})
+	// transactions vouched for by the memory pool (TrustedTxChecker) next to ones that are not
+	vouched := func(t *reftx.Tx) *reftx.Tx { t.LockTime = vouchedLockTime; return t }
+	add(variant{name: "pool-verified-tx-then-valid-tx", build: func(c *ctx) *reftx.Block {
+		return blk(c, 80, 0, 0, vouched(sp(ops(c.coin("M2")), outs(o1(10e8)))), sp(ops(c.coin("M4")), outs(o1(5e8))))
+	}})
+	add(variant{name: "pool-verified-tx-then-script-failure", rule: "script verifies", build: func(c *ctx) *reftx.Block {
+		return blk(c, 81, 0, 0, vouched(sp(ops(c.coin("M2")), outs(o1(10e8)))), sp(ops(c.coin("Mbad")), outs(o1(10e8))))
+	}})
+	add(variant{name: "script-failure-then-pool-verified-tx", rule: "script verifies", build: func(c *ctx) *reftx.Block {
+		return blk(c, 82, 0, 0, sp(ops(c.coin("Mbad")), outs(o1(10e8))), vouched(sp(ops(c.coin("M2")), outs(o1(10e8)))))
+	}})
+	add(variant{name: "two-pool-verified-txs-then-witness-missing", rule: "script verifies", build: func(c *ctx) *reftx.Block {
+		return blk(c, 83, 0, 0, vouched(sp(ops(c.coin("M2")), outs(o1(10e8)))), vouched(sp(ops(c.coin("M4")), outs(o1(5e8)))), sp(ops(c.coin("W0")), outs(o1(5e8))))
+	}})
 	// BIP68 (tx version 2 by minichain.Spend)
 	bip68 := func(name string, seq uint32, ok bool) {
 		rule := "BIP68"
@@ -458,6 +473,10 @@ type job struct {
 }
 
 var watchdog = 120 * time.Second
+
+const vouchedLockTime = 777
+
+var vouchAsked, vouchGiven int64
 
 var twinLost = map[string]bool{}
 
@@ -601,6 +620,17 @@ func main() {
 	r := ev.Start("C04", "model_checking")
 	minichain.Quiet()
 	debug.SetGCPercent(400)
+	// As in the client (txpool installs chain.TrustedTxChecker): transactions the memory pool has
+	// already verified are not script-checked again inside a block. The harness "pool" vouches
+	// for exactly the transactions it marks with lock time 777 (all of them script-valid).
+	chain.TrustedTxChecker = func(tx *btc.Tx) bool {
+		atomic.AddInt64(&vouchAsked, 1)
+		if tx.Lock_time == vouchedLockTime {
+			atomic.AddInt64(&vouchGiven, 1)
+			return true
+		}
+		return false
+	}
 	p := buildPrefix()
 	defer p.Remove()
 	vs := variants()
@@ -741,6 +771,7 @@ func main() {
 		"variants":                      len(vs),
 		"rules_exercised":               rh,
 		"subsidy_boundary_checks":       rewardChecks,
+		"trusted_tx_checker_calls":      map[string]int64{"asked": vouchAsked, "vouched": vouchGiven},
 		"valid_blocks_not_connected":    lostList(),
 		"traces_validated_against_impl": int(hist),
 		"samples":                       samples.L,
@@ -750,6 +781,7 @@ func main() {
 		"reference model refchain (Core's connect rules incl. MoneyRange, BIP68, sigop cost) is the oracle",
 		"scripts are OP_1 / OP_0 / sigop-carrying output scripts, plus one 400-byte redeem / witness script (an unexecuted branch with 198 OP_16 OP_CHECKMULTISIG) behind P2SH, P2WSH and P2SH-P2WSH outputs for the sigop cost that is only reached when redeem and witness scripts are counted; real script semantics are C01's",
 		"BIP30 is not in the property's rule list and is not judged",
+		"chain.TrustedTxChecker is installed as the client does; it vouches only for transactions the harness marks (lock time 777), all of which are script-valid - what a vouched transaction's scripts would have said is not judged",
 		"height 210000 is not reached through the chain; GetBlockReward is enumerated directly at every halving boundary",
 	})
 }
